@@ -8,7 +8,7 @@ def run(ck):
                       "normalising it again returns it unchanged; the Lean transcription of [fs.path.generic]/6 is cross-checked against libstdc++")
     ck.assumptions += ["POSIX build", "zix collapses a multi-separator root to one separator (same path)"]
     if not ck.build_driver(): return
-    if not ck.prove():
+    if not ck.prove(["ZixModel.Properties.C11", "ZixModel.Properties.C12Buf"]):
         ck.report_proof_failure("theorems about lexically_normal no longer build")
     exe = pc.build(ck)
     if not exe: return
